@@ -261,7 +261,7 @@ package evaluator
 // the statements are evaluated in order, one Eval each; evaluation stops at the first error / return;
 // a DeferObj result is appended (exactly once, at the end) to the collected list, anything else leaves it unchanged
 //@ func evaluator._evalStmts(stmts, env) res, deferObjs
-//@   requires env != nil && (forall i int :: {stmts[i]} 0 <= i && i < len(stmts) ==> stmts[i] != nil)
+//@   requires env != nil
 //@   ensures  forall k int :: {result(k)} {arg1(k)} 0 <= k && k < ncalls ==> called(k, evaluator.Eval) && arg1(k) == stmts[k] && arg2(k) == env
 //@   ensures  forall k int :: {result(k)} {arg1(k)} 0 <= k && k < ncalls - 1 ==> !isT(result(k), *object.PanErr) && !isT(result(k), *object.ReturnObj)
 //@   ensures  ncalls <= len(stmts)
@@ -291,9 +291,91 @@ package evaluator
 //
 // body first, then the defers it collected - on every way out; only a failing defer replaces the outcome
 //@ func evaluator.evalStmts(stmts, env) res
-//@   requires env != nil && (forall i int :: {stmts[i]} 0 <= i && i < len(stmts) ==> stmts[i] != nil)
+//@   requires env != nil
 //@   ensures  ncalls == 2 && called(0, evaluator._evalStmts) && arg1(0) == env && sliceArg(0) == stmts
 //@   ensures  called(1, evaluator.evalDefer) && sliceArg(1) == sliceRes(0) && arg1(1) == env
 //@   ensures  result(1) != nil ==> res == result(1)
 //@   ensures  result(1) == nil ==> res == result(0)
 //@   assigns  EC
+//
+// ---- C05: property resolution on the call path -------------------------------------------------
+//@ traced: object.FindPropAlongProtos, object.FindPropOwner, evaluator.evalBuiltInFuncMethodCall, evaluator.evalFuncMethodCall, evaluator.assignArgsToEnv
+//@ props C05
+// the property itself (first owner along the chain), else the first `_missing` in the same order, else NoPropErr
+//@ func evaluator.evalProp(propStr, recv) o, isMissing
+//@   requires isVal(recv)
+//@   requires forall p *object.PanObj :: {p.Pairs} p != nil ==> p.Pairs != nil
+//@   ensures  ncalls >= 1 && called(0, object.FindPropAlongProtos) && arg1(0) == recv && arg2(0) == symhash(propStr)
+//@   ensures  resultok(0) ==> ncalls == 1 && o == result(0) && !isMissing
+//@   ensures  !resultok(0) ==> ncalls == 2 && called(1, object.FindPropAlongProtos) && arg1(1) == recv && arg2(1) == symhash("_missing")
+//@   ensures  !resultok(0) && resultok(1) ==> o == result(1) && isMissing
+//@   ensures  !resultok(0) && !resultok(1) ==> isT(o, *object.PanErr) && as(o, *object.PanErr).ErrKind == object.NoPropErr && !isMissing
+//
+// a built-in / a function property is invoked with the receiver first; an iterator or any other value is returned as is
+//@ func evaluator.evalCall(env, recv, prop, args, kwargs) res
+//@   requires env != nil && isVal(recv) && isVal(prop) && kwargs != nil
+//@   ensures  isT(prop, *object.PanBuiltIn) ==> ncalls == 1 && called(0, evaluator.evalBuiltInFuncMethodCall) && arg1(0) == env && arg2(0) == recv && arg3(0) == prop && arg4(0) == kwargs && sliceArg(0) == args && res == result(0)
+//@   ensures  isT(prop, *object.PanFunc) && as(prop, *object.PanFunc).FuncKind == object.FuncFunc ==> ncalls == 1 && called(0, evaluator.evalFuncMethodCall) && arg1(0) == env && arg2(0) == recv && arg3(0) == prop && arg4(0) == kwargs && sliceArg(0) == args && res == result(0)
+//@   ensures  isT(prop, *object.PanFunc) && as(prop, *object.PanFunc).FuncKind != object.FuncFunc ==> ncalls == 0 && res == prop
+//@   ensures  !isT(prop, *object.PanFunc) && !isT(prop, *object.PanBuiltIn) ==> ncalls == 0 && res == prop
+//@   assigns  EC
+//
+//@ props C03 C05
+//@ func evaluator.evalBuiltInFuncMethodCall(env, recv, f, args, kwargs) res
+//@   requires env != nil && isVal(recv) && f != nil && f.Fn != nil && kwargs != nil
+//@   ensures  ncalls == 1 && called(0, "object.BuiltInFunc") && arg1(0) == env && arg2(0) == kwargs && arg3(0) == recv && nvarargs(0) == len(args) + 1 && res == result(0)
+//@   ensures  len(args) >= 1 ==> arg4(0) == args[0]
+//@   assigns  EC
+//
+//@ func evaluator.evalFuncMethodCall(env, recv, f, args, kwargs) res
+//@   requires env != nil && isVal(recv) && f != nil && kwargs != nil
+//@   ensures  ncalls == 1 && called(0, evaluator.evalFuncCall) && arg1(0) == env && arg2(0) == kwargs && arg3(0) == f && arg4(0) == recv && nvarargs(0) == len(args) + 2 && res == result(0)
+//@   ensures  len(args) >= 1 ==> arg5(0) == args[0]
+//@   assigns  EC
+//
+// a receiver-less chain uses the current function's first argument (`\1`)
+//@ func evaluator.extractAnonChainRecv(env) self, err
+//@   requires env != nil && env.Store != nil
+//@   ensures  ncalls == 1 && called(0, "object.(*Env).Get") && arg1(0) == env && arg2(0) == symhash("\\1")
+//@   ensures  resultok(0) ==> self == result(0) && err == nil
+//@   ensures  !resultok(0) ==> err != nil
+//@   assigns  nothing
+//
+// ---- C03: scopes and argument binding -------------------------------------------------------------
+//@ props C03
+// `x := e`: e is evaluated once in the current scope; on success the innermost scope - and only it - gets the binding
+//@ func evaluator.evalAssign(node, env) res
+//@   requires node != nil && env != nil && env.Store != nil
+//@   ensures  ncalls == 1 && called(0, evaluator.Eval) && arg1(0) == node.Right && arg2(0) == env
+//@   ensures  isT(result(0), *object.PanErr) ==> res == result(0)
+//@   ensures  !isT(result(0), *object.PanErr) ==> res == result(0) && has(env.Store, symhash(node.Left.Value)) && env.Store[symhash(node.Left.Value)] == res
+//@   assigns  EC
+//
+// a name is looked up from the current scope outwards
+//@ func evaluator.evalIdent(ident, env) res
+//@   requires ident != nil && env != nil && env.Store != nil
+//@   ensures  ncalls == 1 && called(0, "object.(*Env).Get") && arg1(0) == env && arg2(0) == symhash(ident.Value)
+//@   ensures  resultok(0) ==> res == result(0)
+//@   ensures  !resultok(0) ==> isT(res, *object.PanErr) && as(res, *object.PanErr).ErrKind == object.NameErr
+//@   assigns  EC
+//
+// a call runs the body in a fresh copy of the closure's scope: same enclosing (definition) scope, own store;
+// never the caller's scope
+//@ func evaluator.evalPanFuncCall(f, env, kwargs, args) res
+//@   requires f != nil && env != nil && kwargs != nil && kwargs.Pairs != nil && *kwargs.Pairs != nil && argsOK(args)
+//@   let defEnv := f.Env
+//@   let defOuter := f.Env.outer
+//@   ensures  ncalls == 2 && called(0, evaluator.assignArgsToEnv) && called(1, evaluator.evalStmts) && arg1(1) == arg1(0)
+//@   ensures  fresh(arg1(1)) && arg1(1) != env && arg1(1) != defEnv && as(arg1(1), *object.Env).outer == defOuter && fresh(as(arg1(1), *object.Env).Store)
+//@   ensures  !isT(result(1), *object.PanErr) ==> res == result(1)
+//@   assigns  EC
+//
+//@ func evaluator.paddedArgs(args, params) res
+//@   ensures  len(res) == (len(args) >= len(params) ? len(args) : len(params))
+//@   ensures  forall i int :: {res[i]} 0 <= i && i < len(args) ==> res[i] == args[i]
+//@   ensures  forall i int :: {res[i]} len(args) <= i && i < len(res) ==> res[i] == object.BuiltInNil
+//@   ensures  fresh(res) || res == args
+//@   assigns  nothing
+//@   loop 1 invariant 0 <= i && i <= lackedArityNum && fresh(paddedArgs) && len(paddedArgs) == len(args) + i
+//@   loop 1 invariant forall k int :: {paddedArgs[k]} 0 <= k && k < len(args) ==> paddedArgs[k] == args[k]
+//@   loop 1 invariant forall k int :: {paddedArgs[k]} len(args) <= k && k < len(paddedArgs) ==> paddedArgs[k] == object.BuiltInNil
